@@ -6,6 +6,8 @@
 -/
 import Coraza.Proofs.Rx
 import Coraza.Proofs.Regex
+import Coraza.Proofs.RegexCI
+import Coraza.Base.Lit
 open Coraza Coraza.Rx
 
 /-- C11_minLen_sound: whatever the pattern matches is at least `minLen` bytes long — for every
@@ -150,6 +152,47 @@ theorem C11_exact_fastpath (lit v : Bytes) (hnl : (10 : UInt8) ∉ v) :
     refine ⟨[], v, [], by simp, (exactRe_iff v _ _ _).mpr ⟨rfl, ?_, ?_⟩⟩
     · simp [Asrt.holds, lst]
     · simp [Asrt.holds, hd]
+
+open Coraza.Regex in
+/-- **C11_exact_fastpath_ci**: the case-insensitive variant (`exactMatchCI`, rx.go:144): for every
+    literal and every value without a newline, `(?sm)^(?i:literal)$` finds a match iff value and
+    literal are equal after ASCII case folding — `strings.EqualFold` on the ASCII text the model's
+    fragment covers. -/
+theorem C11_exact_fastpath_ci (lit v : Bytes) (hnl : (10 : UInt8) ∉ v) :
+    search (exactReCI lit) v = decide (v.map asciiLower = lit.map asciiLower) := by
+  rw [Bool.eq_iff_iff, search_iff]
+  simp only [decide_eq_true_eq]
+  constructor
+  · rintro ⟨pre, m, post, hv, hm⟩
+    obtain ⟨hml, hb, he⟩ := (exactReCI_iff lit _ _ _).mp hm
+    have hpre : pre = [] := by
+      rcases lst_cases none pre with ⟨h1, _⟩ | ⟨c, hc, hl⟩
+      · exact h1
+      · rw [hl] at hb
+        simp only [Asrt.holds, beq_iff_eq] at hb
+        subst hb
+        exact absurd (by rw [hv]; simp [hc]) hnl
+    have hpost : post = [] := by
+      cases post with
+      | nil => rfl
+      | cons c cs =>
+        simp only [hd, Asrt.holds, beq_iff_eq] at he
+        subst he
+        exact absurd (by rw [hv]; simp) hnl
+    subst hpre; subst hpost
+    simp only [List.nil_append, List.append_nil] at hv
+    rw [hv]; exact hml
+  · intro hv
+    refine ⟨[], v, [], by simp, (exactReCI_iff lit _ _ _).mpr ⟨hv, ?_, ?_⟩⟩
+    · simp [Asrt.holds, lst]
+    · simp [Asrt.holds, hd]
+
+open Coraza.Regex in
+example : search (exactReCI (b!"ok")) (b!"Ok") = true ∧ search (exactReCI (b!"ok")) (b!"Okay") = false := by decide
+
+open Coraza.Regex in
+/-- the shape is what the parser builds for `(?sm)(?i)^ok$` (modulo the empty pieces of the two flag groups) -/
+example : parse {} (b!"(?sm)(?i)^ok$") = some (.cat .eps (.cat .eps (exactReCI (b!"ok")))) := by decide
 
 open Coraza.Regex in
 /-- the guard is needed: with a newline in the value `(?m)^OPTIONS$` matches inside it although the
